@@ -127,3 +127,86 @@ def path_state(body_q_dot, t, q, u, u_dot):
     """returns s -> (t+s, q+s*q_dot, u+s*u_dot): straight line with the right first derivative"""
     qd = body_q_dot(t, q, u)
     return lambda s: (t + s, q + s * qd, u + s * u_dot)
+
+
+# ---------------------------------------------------------------------------
+# systems
+# ---------------------------------------------------------------------------
+def no_cic_options():
+    from cardillo.solver import SolverOptions
+    return SolverOptions(compute_consistent_initial_conditions=False)
+
+
+def random_system_state(rng, system, unit=None, perturb=1.0):
+    """random (q, u, u_dot) for an assembled system, per contribution kind;
+    returns also the list of quaternion classes used"""
+    q = np.array(system.q0, dtype=float).copy()
+    u = rng.normal(size=system.nu)
+    u_dot = rng.normal(size=system.nu)
+    classes = []
+    for c in system.contributions:
+        if not hasattr(c, "nq") or c.nq == 0:
+            continue
+        dof = c.my_qDOF
+        if c.nq == 7 and hasattr(c, "B_Theta_C"):
+            qq, uu, _, cls = rigid_body_state(rng, unit=unit)
+            q[dof] = qq
+            classes.append(cls)
+        elif c.nq == 3 and c.__class__.__name__ == "PointMass":
+            q[dof] = rng.normal(size=3) * 2
+        else:  # rods and others: perturb the reference coordinates
+            q[dof] = q[dof] + perturb * 0.2 * rng.normal(size=len(dof))
+    return q, u, u_dot, classes
+
+
+SUBSYSTEM_KINDS = ["fixed_frame", "moving_frame", "rotating_frame", "rigid_body", "point_mass"]
+
+
+def make_subsystem(rng, kind, name):
+    """returns (object, has_orientation, has_dofs, description)"""
+    from cardillo.discrete import Frame, RigidBody, PointMass
+    if kind == "fixed_frame":
+        m = Motion(rng, moving=False, rotating=False)
+        return m.frame(Frame, name=name), True, False, m
+    if kind == "moving_frame":
+        m = Motion(rng, moving=True, rotating=False)
+        return m.frame(Frame, name=name), True, False, m
+    if kind == "rotating_frame":
+        m = Motion(rng, moving=True, rotating=True)
+        return m.frame(Frame, name=name), True, False, m
+    if kind == "rigid_body":
+        q0, u0, _, _ = rigid_body_state(rng, unit=True)
+        b = RigidBody(float(loguniform(rng, 0.1, 10)), random_spd(rng), q0=q0, u0=u0, name=name)
+        return b, True, True, None
+    if kind == "point_mass":
+        b = PointMass(float(loguniform(rng, 0.1, 10)), q0=rng.normal(size=3), u0=rng.normal(size=3), name=name)
+        return b, False, True, None
+    raise ValueError(kind)
+
+
+JOINT_KINDS = ["Spherical", "RigidConnection", "Revolute", "Prismatic", "Cylindrical", "Planarizer", "FixedDistance"]
+
+
+def make_joint(rng, kind, s1, s2, placement="given", xi1=None, xi2=None):
+    """real joint object between s1 and s2. placement: 'given' (random r_OJ0/A_IJ0) or 'default' (None)."""
+    import cardillo.constraints as C
+    r_OJ0 = rng.normal(size=3) if placement == "given" else None
+    A_IJ0 = quat_to_mat(rng.normal(size=4)) if placement == "given" else None
+    axis = int(rng.integers(3))
+    info = {"kind": kind, "placement": placement, "axis": axis}
+    if kind == "Spherical":
+        j = C.Spherical(s1, s2, r_OJ0=r_OJ0, xi1=xi1, xi2=xi2)
+    elif kind == "RigidConnection":
+        j = C.RigidConnection(s1, s2, r_OJ0=r_OJ0, A_IJ0=A_IJ0, xi1=xi1, xi2=xi2)
+    elif kind == "Revolute":
+        info["angle0"] = float(rng.uniform(-3 * np.pi, 3 * np.pi)) if rng.random() < 0.5 else 0.0
+        j = C.Revolute(s1, s2, axis, angle0=info["angle0"], r_OJ0=r_OJ0, A_IJ0=A_IJ0, xi1=xi1, xi2=xi2)
+    elif kind in ("Prismatic", "Cylindrical", "Planarizer"):
+        j = getattr(C, kind)(s1, s2, axis, r_OJ0=r_OJ0, A_IJ0=A_IJ0, xi1=xi1, xi2=xi2)
+    elif kind == "FixedDistance":
+        B1 = rng.normal(size=3) if placement == "given" else np.zeros(3)
+        B2 = rng.normal(size=3) if placement == "given" else np.zeros(3)
+        j = C.FixedDistance(s1, s2, xi1=xi1, xi2=xi2, B1_r_P1J1=B1, B2_r_P2J2=B2)
+    else:
+        raise ValueError(kind)
+    return j, info
